@@ -230,9 +230,10 @@ class Analyzer:
                     if self.denotes(a) and i >= 2:
                         self.err(n, 'positional table argument to FEMData(...)')
                 if self.facts.ctor is None:
-                    self.facts.ctor = {'shares': shares}
+                    self.facts.ctor = {'shares': shares, 'tables': set()}
                 else:
                     self.facts.ctor['shares'] = self.facts.ctor['shares'] or shares
+                self.facts.ctor['tables'] |= set(self.child_shared)
 
     def decorators(self):
         for d in self.fn.decorator_list:
@@ -922,9 +923,13 @@ def translate(repo):
     for m in derivs:
         dvs.append({'name': m, 'pre': [c for c in pre_of(m) if c != m],
                     'shares': bool(facts[m].ctor['shares']),
+                    'tables': sorted(facts[m].ctor['tables']),
                     'parent_writes': pats(Wr[m]), 'where': f'{where[m]}:{facts[m].lineno}'})
     cfg = {'queries': queries, 'effects': effects, 'derivs': dvs,
-           'slots': slots}
+           'slots': slots,
+           # call graph of every mesh method (used by the harness to attribute a failure seen
+           # through a non-memoised method to the memoised query it calls)
+           'calls': {m: sorted({c for (c, _, _) in facts[m].calls if c in facts}) for m in facts}}
     return cfg, consumed
 
 
@@ -972,7 +977,8 @@ def emit(cfg):
     for i, d in enumerate(cfg['derivs']):
         L.append(f'(* {d["where"]} *)')
         L.append(f'Definition d{i} : dcfg := mkd {cs(d["name"])} {cl([cs(a) for a in d["pre"]])} '
-                 f'{"true" if d["shares"] else "false"} {cl([cpat(p) for p in d["parent_writes"]])}.')
+                 f'{"true" if d["shares"] else "false"} {cl([cpat(p) for p in d["parent_writes"]])} '
+                 f'{cl([cs(t) for t in d["tables"]])}.')
         dn.append(f'd{i}')
     L.append('')
     L.append('Definition cfg : config := mkcfg\n  ' + cl(qn) + '\n  ' + cl(en) + '\n  ' + cl(dn) + '.')
